@@ -79,6 +79,12 @@ CLAIMED = {
    text="All valid quadruples of length-1 strings over < > [ ] \\ ^ with every subset of positions left empty (and all length <= 2 quadruples in the thorough tier) plus random quadruples up to length 4 are applied to generated templates with hyphens, raw/comment blocks and a failing last line; output bytes or the error's line number must equal the default spelling on a default engine, and default delimiter strings must be plain text for other delimiters.",
    note="Templates whose contents contain a delimiter character are outside the statement ('a template written with them') and are excluded and counted. Trusted: hx.Spell produces the same token sequence under both spellings.",
    ref="DESIGN.md 7.C19"),
+ "C20": dict(
+   category="fault_enumeration",
+   technique="fault injection driven by property-based generation: for each rapid-generated program every write call k x {nothing accepted, strict prefix accepted} x {FRender, ParseAndFRender} is failed with a sticky sentinel writer; prefix, sentinel-carrying error and stop-of-evaluation oracles",
+   text="For every generated program (all tags, include, hyphens) the write calls of a fault-free render are enumerated and each one is failed in turn, in two modes and through both entry points: the call must return a non-nil SourceError carrying the writer's error, never panic, the accepted bytes must be a prefix of the fault-free output, and counting filters show that evaluation stopped. Enumeration over k is exhaustive per program; programs are sampled.",
+   note="Trusted: the recording/fault writers and the counting filter. 'Stops' is asserted with one buffered write of slack (the trim writer holds the last write back) and at most one further Write call.",
+   ref="DESIGN.md 7.C20"),
 }
 
 REASON_PENDING = "check not built yet in this snapshot of /verif (planned: see DESIGN.md section 7); nothing is claimed for it"
